@@ -97,6 +97,7 @@ func runC02(c *Ctx) {
 	c.r0212(pk)
 	c.alsoUnder(map[string]string{"R01.46": "R02.13"}, nil, func() { c.r0146(pk) })
 	c.r0214(pk)
+	c.r0151(pk, "R02.15")
 	c.R.Rule("R02.8", "R01.3 restricted to renamer.rename: every save `p := m.renamer.rename` is followed, on every path from the later assignment of the switch to a function exit, by the restore `m.renamer.rename = p` — a leaked `on` lets the rest of an enclosing function that contains `with` be renamed")
 	c.r013(pk, "R02.8", map[string]bool{"rename": true})
 }
